@@ -183,6 +183,50 @@ def attribute(s, kind, findings):
             return f
     return None
 
+def indirect_default_stage(ctx, findings):
+    """'A numeric default outside the admitted range is reported as an error' when the default does NOT sit on the integer
+    schema itself: on a property that refers to it, in an array default, under the nullable `type: [integer, null]` spelling.
+    Real add path through tvh_ir, one document per (integer schema, site, value). Expected: Ok iff the value is admitted."""
+    import m2, irutil
+    rng = ctx.rng
+    ints = [{"type": "integer"}, {"type": "integer", "format": "uint8"}, {"type": "integer", "format": "int32"}, {"type": "integer", "format": "uint64"},
+            {"type": "integer", "minimum": 10, "maximum": 20}, {"type": "integer", "minimum": 1}, {"type": "integer", "format": "int64", "maximum": -1},
+            {"type": "integer", "format": "uint32", "minimum": 1}, {"type": "integer", "minimum": 0, "maximum": 65535}]
+    vals = [0, 1, -1, 5, 15, 20, 21, 255, 256, 65535, 65536, 2**31 - 1, 2**31, 2**32, 2**63 - 1, 2**63, 2**64 - 1, -2**31 - 1, -2**63]
+    if ctx.tier != "thorough": vals = [v for i, v in enumerate(vals) if i % 2 == 0] + [2**63, 2**64 - 1, 256]
+    reqs = []; meta = []
+    for sc in ints:
+        for v in vals:
+            for site in ("ref", "array", "nullable", "nested"):
+                if site == "ref": props = {"p": {"allOf": [{"$ref": "#/definitions/I"}], "default": v}}
+                elif site == "array": props = {"p": {"type": "array", "items": {"$ref": "#/definitions/I"}, "default": [v]}}
+                elif site == "nullable": props = {"p": dict(sc, type=["integer", "null"], default=v)}
+                else: props = {"p": {"type": "object", "properties": {"q": {"$ref": "#/definitions/I"}}, "default": {"q": v}}}
+                doc = {"title": "Root", "type": "object", "properties": props, "definitions": {"I": sc}}
+                reqs.append({"settings": {}, "calls": [{"root": doc}]}); meta.append((sc, site, v))
+    ans = m2.tvh_ir(reqs)
+    fails = []; known = 0; stats = {"ok": 0, "err": 0, "other": 0}
+    fd = next((f for f in findings if f["id"] == "C10-ref-default-bounds"), None)
+    import gen
+    for rq, (sc, site, v), a in zip(reqs, meta, ans):
+        lo, hi = gen.int_bounds(sc)
+        admitted = (lo is None or v >= lo) and (hi is None or v <= hi)
+        call = (a.get("calls") or ["none"])[-1]
+        k = "ok" if call.startswith("ok") else "err" if call.startswith("err") else "other"
+        stats[k] += 1
+        if k == "other": fails.append({"request": rq, "what": "add path neither Ok nor Err: %s" % call}); continue
+        # without a 64-bit unsigned format an unbounded integer is read as i64 (the documented fallback): values beyond it
+        # may be refused
+        beyond = not (-2**63 <= v <= 2**63 - 1) and sc.get("format") != "uint64"
+        if admitted and k == "err" and not beyond: fails.append({"request": rq, "what": "an admitted default %r is rejected (%s site)" % (v, site)})
+        if not admitted and k == "ok":
+            # listed finding: the value is inside the RUST type that was selected (only the schema's own bounds are missed)
+            es = irutil.entries(a["dump"]); rty = next((e.get("name") or e.get("type_name") for e in es.values() if e["kind"] == "integer"), None)
+            tlo, thi = TYPES.get(rty, (None, None))
+            if fd and site != "nullable" and tlo is not None and tlo <= v <= thi: known += 1
+            else: fails.append({"request": rq, "what": "a default %r outside the admitted range [%s, %s] is accepted through the %s site (selected type %s)" % (v, lo, hi, site, rty)})
+    return {"evaluations": len(reqs), "fails": fails, "known": known, "answers": stats, "finding": fd}
+
 def convert_string_stage(ctx, st):
     """M0 for the model of convert_string (Model/ConvertString.lean, theorems Proofs/C05Convert.lean): the whole keyword
     lattice format x minLength x maxLength x pattern, one document per schema (the uses_ flags belong to the type space),
@@ -373,6 +417,12 @@ def run(ctx):
     ctx.log("string formats: %d evaluations, %d disagreements with the T2 table model, %d oracle failures" % (sf["evaluations"], len(sf["disagreements"]), len(sf["fails"])))
     if sf["disagreements"]:
         broken.append("correspondence T2 (string formats): the table regenerated from convert_string and the real add path disagree on %d schemas" % len(sf["disagreements"]))
+    ind = indirect_default_stage(ctx, findings)
+    ctx.log("indirect defaults: %d documents, answers %r, %d failures, %d attributed to C10-ref-default-bounds" % (ind["evaluations"], ind["answers"], len(ind["fails"]), ind["known"]))
+    if ind["known"] and ind["finding"]: vlib.known(ctx, ind["finding"])
+    for fl in ind["fails"][:3]:
+        vlib.violation(ctx, {"property": "C10", "kind": "implementation violates the property", "failed_clause": "default outside the admitted range is an error (indirect sites)",
+                             "input": fl["request"], "detail": fl["what"], "broken_obligations": broken})
     cs_ = convert_string_stage(ctx, st)
     ctx.log("convert_string model (M0): %d schemas, %d disagreements, answers %r" % (cs_["evaluations"], len(cs_["disagreements"]), cs_["answers"]))
     if cs_["disagreements"]:
@@ -402,7 +452,7 @@ def run(ctx):
                              "input": c, "impl_answer": a, "failed_clause": kind, "witness_value": det,
                              "broken_obligations": broken, "first_disagreements": disagreements[:3],
                              "replay": "./check C10 --replay <this file>"})
-    if broken and not new_fail and not sf["fails"]:
+    if broken and not new_fail and not sf["fails"] and not ind["fails"]:
         vlib.violation(ctx, {"property": "C10", "kind": "property no longer shown to hold",
                              "broken_obligations": broken, "first_disagreements": disagreements[:5],
                              "lean_log": st.get("log", "")}, no_input=True)
@@ -423,6 +473,7 @@ def run(ctx):
         "out_of_model_domain": unsupported,
         "answer_distribution": dict(sorted(branches.items(), key=lambda kv: -kv[1])[:20]),
         "tables_regenerated": st["tables_ok"],
+        "indirect_default_sites": {"evaluations": ind["evaluations"], "answers": ind["answers"], "failures": len(ind["fails"]), "attributed_to_finding": ind["known"]},
         "convert_string_model": {"evaluations": cs_["evaluations"], "disagreements": cs_["disagreements"][:5], "answers": cs_["answers"],
                                  "theorems": ["C05C.convert_string_exact", "C05C.convert_string_uses_regress", "C05C.convert_string_format_ignores_validation", "C05C.convert_string_format_drops"]},
         "convert_array_model": {"evaluations": ca_["evaluations"], "disagreements": ca_["disagreements"][:5], "answers": ca_["answers"],
